@@ -8,6 +8,7 @@ CONSTANTS
   BC <- CBC
   BBit <- CBBit
   BBase <- CBBase
+  BHas <- CBHas
   RekeyOp <- IsapRekeyBits
   CapUnit = 16
   FixedResize = TRUE
